@@ -5,8 +5,10 @@ import (
 	"flag"
 	"fmt"
 	"os"
+	"runtime"
 	"strconv"
 	"strings"
+	"sync"
 	"testing"
 	"time"
 )
@@ -38,6 +40,9 @@ type Run struct {
 	replay   *ReplayFile
 	fsig     map[string]*Violation
 	scen     int64
+	jmu      sync.Mutex
+	jdesc    string
+	jseq     int64
 }
 
 // ReplayFile is what the driver writes per violation.
@@ -49,6 +54,45 @@ type ReplayFile struct {
 	Choices   []int           `json:"choices,omitempty"`
 	Input     json.RawMessage `json:"input,omitempty"`
 	Trace     []string        `json:"trace,omitempty"`
+}
+
+// Journal records what the process is about to execute. A watchdog started by
+// Main aborts the process with a WATCHDOG-HANG report when the journal has not
+// moved for hangLimit of real time (the only wall-clock element; it exists
+// because a spinning goroutine inside a bubble can never be recovered
+// in-process). The limit is three to four orders of magnitude above the
+// normal handling time of one input.
+func (r *Run) Journal(desc string) {
+	r.jmu.Lock()
+	r.jdesc = desc
+	r.jseq++
+	r.jmu.Unlock()
+}
+
+const hangLimit = 60 * time.Second
+
+func (r *Run) watchdog() {
+	var last int64 = -1
+	var since time.Time
+	for {
+		time.Sleep(2 * time.Second)
+		r.jmu.Lock()
+		seq, desc := r.jseq, r.jdesc
+		r.jmu.Unlock()
+		if seq == 0 {
+			continue // journalling not in use
+		}
+		if seq != last {
+			last, since = seq, time.Now()
+			continue
+		}
+		if time.Since(since) > hangLimit {
+			buf := make([]byte, 1<<20)
+			buf = buf[:runtime.Stack(buf, true)]
+			fmt.Printf("WATCHDOG-HANG: no progress for %v\nJOURNAL: %s\n%s\n", hangLimit, desc, buf)
+			os.Exit(3)
+		}
+	}
 }
 
 // Thorough reports whether the thorough tier was requested.
@@ -184,7 +228,9 @@ func Main(t *testing.T, property string, body func(r *Run)) {
 			t.Fatal(err)
 		}
 	}
+	go r.watchdog()
 	body(r)
+	r.Journal("done")
 	if r.replay != nil {
 		return
 	}
